@@ -28,6 +28,16 @@ func TestC20(t *testing.T) {
 		}
 		c20History(r, id)
 	}
+	// directed: governance campaigns on the EVM parameters in quick succession, half of them with a
+	// failing second message (the parameter change is executed and rolled back), restarts after every block
+	ng := r.Pick(6, 48)
+	for i := 0; i < ng; i++ {
+		id := fmt.Sprintf("gov/%d", i)
+		if !r.Want(id, nh+i) {
+			continue
+		}
+		c20History(r, id)
+	}
 }
 
 // battery is what a node answers at a block boundary (after Commit, before the next BeginBlock).
@@ -117,6 +127,10 @@ func c20History(r *report.R, id string) {
 	h, _ := histCfgFor(r, id)
 	g := newHistGen(h, r.Rand(id))
 	nblocks := r.Pick(30, 150)
+	if strings.HasPrefix(id, "gov/") {
+		g.campEvery, g.campFailEvery, g.campKinds, g.slowBlocks = 2, 2, []int{0, 1, 2, 3, 3, 3, 4, 5}, true
+		nblocks = r.Pick(45, 120)
+	}
 	for b := 0; b < nblocks; b++ {
 		g.block()
 	}
